@@ -23,4 +23,14 @@ PROPS = {
         "modelled": COMMON_MODELLED + ["TpmFail.c:TpmFailureMode transcribed completely in Model/FailMode.lean; platform constants generated"],
         "assumptions": ["RunCommand.c built with -Dlongjmp=verif_longjmp so a jump requested outside TPMLIB_Process is observable"],
     },
+    "C11": {
+        "claimed": True,
+        "level_text": "Lean 4 theorems over a line-by-line model of Session.c for all states and sequence numbers: a context loads at most once per save (load_once), not after flush or TPM Reset, older sequence numbers are refused across the 8-/16-bit counter wrap (replay_rejected), ContextSave answers CONTEXT_GAP rather than reuse the oldest id and a refused save has no effect, slot accounting of create/save/load/flush, counter never aliases slot numbers. Correspondence: random and drilled histories with the counter written next to the wraps, every rc/handle/sequence/handle-list/HR_* property compared with the model; model-free oracles: altered or truncated blobs never load and have no effect, double load, load after reset.",
+        "shards": {"quick": 4, "thorough": 16},
+        "timeout": {"quick": 600, "thorough": 3000},
+        "rule": "evaluation = one StartAuthSession/ContextSave/ContextLoad/FlushContext/GetCapability/Startup/resume event replayed through Model.Session, or one mutated-blob load; distinct_nontrivial = distinct (op, rc, model-branch) triples incl. counter-wrap and gap cases",
+        "partial": ["context-blob integrity (HMAC) is exercised by the mutation oracle, not modelled; object contexts are exercised only through the mutation oracle"],
+        "modelled": COMMON_MODELLED + ["Session.c accounting (create/save/load/flush/startup/oldest/gap) and SequenceNumberForSavedContextIsValid modelled in Model/Session.lean; gr.contextCounter and s_ContextSlotMask are written by the harness to reach the 8/16-bit wraps"],
+        "assumptions": ["harness writes gr.contextCounter / s_ContextSlotMask only while no context is saved"],
+    },
 }
